@@ -145,6 +145,8 @@ class World:
         T['prec'] = np.eye(nch) + 0.1
         T['desc_dict'] = {'cond': ['c1', 'c2', 'c3', 'c4', 'c5'], 'k': 1}
         T['pdesc_dict'] = {'cond': ['c1', 'c2', 'c3', 'c4', 'c5']}
+        T['desc_lists'] = {'cond': ['c1', 'c2', 'c3', 'c4', 'c5'], 'cat': np.array([1, 1, 2, 2, 3])}
+        T['desc_lists2'] = {'cond': ['c6', 'c7'], 'cat': np.array([4, 4]), 'index': [0, 1]}
         T['rdesc_dict'] = {'subj': ['a', 'b', 'c']}
         T['evals'] = rng.uniform(0.1, 0.9, (3, 6))
         T['variances'] = np.cov(rng.uniform(0.1, 0.9, (5, 30)))
@@ -156,6 +158,8 @@ class World:
         for key, cls, src in (('m_fixed', ModelFixed, 'model_rdm1'), ('m_weighted', ModelWeighted, 'model_rdms'),
                               ('m_select', ModelSelect, 'model_rdms'), ('m_interp', ModelInterpolate, 'model_rdms')):
             T[key] = cls(key, T[src].copy())
+        from rsatoolbox.rdm.rdms import permute_rdms
+        T['rdms_perm'] = permute_rdms(T['rdms'].copy(), np.array([2, 0, 1, 4, 3]))
         from rsatoolbox.inference import eval_fixed
         T['result'] = eval_fixed([ModelFixed('ra', T['model_rdm1'].copy()), ModelFixed('rb', T['model_rdms'].copy()[1])],
                                  T['rdms'].copy())
@@ -373,6 +377,30 @@ def _special(world, qual, pname, owner):
         return (T['pdesc_dict'], ['pdesc_dict'])
     if name in ('Dataset',) and pname == 'obs_descriptors':
         return ({'conds': ['c1'] * 12}, [])
+    if name in ('bool_index', 'num_index'):
+        return {'descriptor': (T['desc_lists']['cat'], ['desc_lists']), 'value': ([1, 3], [])}.get(pname, _NOARG)
+    if name in ('subset_descriptor', 'extract_dict', 'format_descriptor', 'parse_input_descriptor',
+                'check_descriptor_length', 'dict_to_list', 'append_descriptor', 'desc_eq'):
+        if pname in ('descriptor', 'descriptors', 'dictionary', 'd_dict', 'a'):
+            return (T['desc_lists'], ['desc_lists'])
+        if pname == 'b':
+            return (T['pdesc_dict'], ['pdesc_dict'])
+        if pname == 'desc_new':
+            return (T['desc_lists2'], ['desc_lists2'])
+        if pname == 'indices':
+            return ([0, 2], [])
+        if pname == 'n_element':
+            return (5, [])
+    if name == 'inverse_permute_rdms' and pname == 'rdms':
+        return (T['rdms_perm'], ['rdms_perm'])
+    if name == 'ensure_double' and pname == 'a':
+        return (T['residuals'], ['residuals'])
+    if name == 'bin_time':
+        return {'by': ('time', []), 'bins': (np.array([[0.0, 0.1], [0.2, 0.3]]), [])}.get(pname, _NOARG)
+    if name == 'convert_to_dataset' and pname == 'by':
+        return ('time', [])
+    if name == 'nested_odd_even_split':
+        return {'l1_obs_desc': ('fold', []), 'l2_obs_desc': ('conds', [])}.get(pname, _NOARG)
     if name == 'calc_one_similarity':
         return _NOARG
     return _NOARG
